@@ -70,7 +70,16 @@ def load_prop(pid):
 def run_case(mod, sim, case, st):
     """execute one case; returns list of (sig, msg).  Harness problems are
     raised, never turned into verdicts."""
-    return mod.check(sim, case, st)
+    n0 = len(sim.hung)
+    res = mod.check(sim, case, st)
+    # bounded liveness, for every property alike: each statement is about what holds "when the command returns", so a
+    # command that is still issuing file-system operations after the step cap (20000 ops; C17 sets its own) has not kept it
+    hung = sim.hung[n0:]
+    if hung and not any('terminat' in s_ for s_, _m in res):
+        st.probes['step-cap-hit'] += 1
+        res = list(res) + [('%s/no-termination/%s' % (mod.ID, os.path.basename(hung[0][0][0])),
+                            'simulated %r was still running after %d file-system operations (step cap): stderr %s' % hung[0])]
+    return res
 
 
 def _worker(args):
